@@ -44,8 +44,14 @@ try:
         meta["apply_error"] = out[-500:]
     rc1, out1 = run_demo()
     meta["demo_with_patch"] = {"exit": rc1, "tail": out1[-600:]}
-    rcb, outb = sh("python3 %s/tools/baseline.py --fast --repo %s" % (V, wt))
-    meta["test_suite_with_patch"] = outb.strip().splitlines()[-1] if outb.strip() else ""
+    prev = {}
+    if os.environ.get("SEED_NOBASELINE") and os.path.exists(os.path.join(V, "seeded", name, "meta.json")):
+        prev = json.load(open(os.path.join(V, "seeded", name, "meta.json")))   # suite result of the first confirmation
+    if prev.get("test_suite_ok"):
+        rcb, meta["test_suite_with_patch"] = 0, prev.get("test_suite_with_patch", "") 
+    else:
+        rcb, outb = sh("python3 %s/tools/baseline.py --fast --repo %s" % (V, wt))
+        meta["test_suite_with_patch"] = outb.strip().splitlines()[-1] if outb.strip() else ""
     meta["test_suite_ok"] = rcb == 0
     meta["confirmed"] = bool(rc0 == 0 and meta["patch_applies"] and rc1 != 0 and rcb == 0)
     checks = {}
